@@ -18,7 +18,7 @@ HERE = os.path.dirname(os.path.dirname(os.path.abspath(__file__)))
 
 PIXEL_SPECS = [
     {'cls': 'CirclePixelRegion', 'center': [12.5, 9.25], 'radius': 4.5,
-     'meta': {'text': 'c1', 'tag': ['a', 'b'], 'include': False},
+     'meta': {'text': 'c1', 'tag': ['a', 'b', 'a'], 'include': False},
      'visual': {'color': 'red', 'linewidth': 2}},
     {'cls': 'EllipsePixelRegion', 'center': [10.0, 11.0], 'width': 9.0,
      'height': 5.0, 'angle': [33.0, 'deg', 'Quantity'],
